@@ -4,20 +4,22 @@ PROP = dict(
     level='proof',
     regen=['crctable', 'wireconsts'],
     theorems=['Fit.C02.C02_parses', 'Fit.C02.C02_datasize', 'Fit.C02.C02_header_crc', 'Fit.C02.C02_crc_whole_sequence_partial',
-              'Fit.C02.C02_legacy_crc_witness', 'Fit.C02.C02_decodes'],
+              'Fit.C02.C02_legacy_crc_witness', 'Fit.C02.C02_decodes',
+              'Fit.C02.C02_wellformed_mixed', 'Fit.C02.C02_wellformed'],
     families=[dict(name='encw', prop=True),
               # the destination side of 'what the encoder reports as written': operation log, final content and the real
               # CheckIntegrity verdict/count per writer kind and buffer size (shared with C09; seeded C02-5, C02-6)
               dict(name='enc-writers', prop=True)],
     trusted_base=STD_TRUST + [
         "FitModel/FitFormat.lean is the specification (an independent reading of the FIT framing); the driver evaluates it (parseStream, header CRC, file CRC over header+records, sequence count, header/CRC written back to the caller) on the bytes the REAL encoder wrote for every operation of family encw",
-        "proved over the model: parseStream succeeds with one sequence per FIT value (C02_parses, via records_spec: the decoder's framing refines the spec's), data size exact, header CRC, file CRC = CRC of the whole sequence for 14-byte headers (crc_append_self), the SDK decoder accepts every successful encode (C02_decodes)",
+        "proved over the model: parseStream succeeds with one sequence per FIT value (C02_parses, via records_spec: the decoder's framing refines the spec's), data size exact, header CRC, file CRC = CRC of the whole sequence for 14-byte headers (crc_append_self), the SDK decoder accepts every successful encode (C02_decodes; like C01_wire_chain under Wire.msgsDescOK — no developer field written under a field description with an invalid base type, which the message validator guarantees: C01_e2e_validator_descs; the decoder rejects such a stream with errInvalidBaseType); the whole-stream statement through the SeqView offsets of a chain of any length: C02_wellformed (14-byte headers: FitFormat.WellFormed and one sequence per FIT value) and C02_wellformed_mixed (14- and 12-byte headers mixed: header CRC / file CRC over the whole sequence exactly for the 14-byte sequences, records-only file CRC for the 12-byte ones)",
     ],
-    assumptions=["inputs satisfy FitOK (what validation lets through; C10)", "14-byte headers for the whole-sequence CRC (12-byte: KF-C02-legacy-crc)"],
+    assumptions=["inputs satisfy FitOK (what validation lets through; C10)", "14-byte headers for the whole-sequence CRC (12-byte: KF-C02-legacy-crc)",
+                 "C02_wellformed*: the output is a byte stream (C02_ByteOK: protocol version < 256, record bytes < 256) - true by type in the code ([]byte), a hypothesis over the model's Nat bytes; E2E.encodeMsgs_bytes derives it from the typing of validated messages"],
 )
 
 TEXT = dict(
     technique='Lean 4 proof over the wire-level encoder model (data size, header CRC, whole-sequence CRC via the CRC residue lemma, acceptance by the decoder model) + the independent framing spec FitFormat evaluated by the Lean driver on the real encoder output',
-    text='For every message list and option combination the model encoder writes a header whose data size is the exact record byte count, a correct header CRC and — for 14-byte headers — a file CRC equal to the CRC-16 of every preceding byte of the sequence; the decoder model accepts the result with checksums on (one sequence per FIT value). On the implementation the same is evaluated directly: the bytes written by the real encoder (4 writer kinds × 10 buffer sizes × chained files) must parse under the independent spec with correct CRCs and match the header/CRC stored back into the caller. 12-byte headers store a records-only CRC (known finding).',
-    note='Trusted: Lean kernel, FitFormat spec as written, harness/driver. The CRC theorems are stated on bytes, not yet through SeqView offsets of a chain.',
+    text='For every message list and option combination the model encoder writes a header whose data size is the exact record byte count, a correct header CRC and — for 14-byte headers — a file CRC equal to the CRC-16 of every preceding byte of the sequence; the decoder model accepts the result with checksums on (one sequence per FIT value). On the implementation the same is evaluated directly: the bytes written by the real encoder (4 writer kinds × 10 buffer sizes × chained files) must parse under the independent spec with correct CRCs and match the header/CRC stored back into the caller. 12-byte headers store a records-only CRC (known finding). C02_wellformed: for chains of any length with 14-byte headers, encodeChain is WellFormed under FitFormat (parses with nothing between or after sequences; headerCrcOk and fileCrcOk hold for every sequence view, evaluated on the whole stream through the view offsets) with seqs.length = fits.length; C02_wellformed_mixed: the same per sequence for mixed chains - headerCrcStrict/headerCrcOk always, fileCrcOk exactly for the sequences with a 14-byte header, and for a 12-byte header: no header CRC and stored file CRC = CRC-16 of the records only (what the code does; KF-C02-legacy-crc).',
+    note='Trusted: Lean kernel, FitFormat spec as written, harness/driver. The whole-stream statement is proved through the SeqView offsets of a chain (C02_wellformed, C02_wellformed_mixed; bookkeeping lemmas FitProps/C02ChainLemmas.lean). C02_wellformed_full (no restriction on the header size) stays a def: it is refuted for 12-byte headers by C02_legacy_crc_witness (open finding KF-C02-legacy-crc).',
 )
